@@ -972,3 +972,397 @@ Proof.
   rewrite Hw2. cbn [bind].
   match goal with |- context [if ?c then _ else _] => destruct c end; eauto.
 Qed.
+
+(* ------------------------------------------------------------------------------------ *)
+(* 5. Packets under construction                                                         *)
+(* ------------------------------------------------------------------------------------ *)
+
+(* invariant of a packet under construction; the 12 header bytes are arbitrary *)
+Definition PINV (p : pkt) : Prop :=
+  p_size p <= MAX_MSG /\ forall h, blen h = 12 -> tbl_ok (p_table p) (h ++ p_body p).
+
+Definition h0 : bytes := repeat 0 12.
+Lemma blen_h0 : blen h0 = 12.
+Proof. reflexivity. Qed.
+
+Lemma blen_hb h b : blen h = 12 -> blen (h ++ b) = 12 + blen b.
+Proof. intros H. blen_norm. lia. Qed.
+
+Lemma PINV_empty : PINV empty_pkt.
+Proof.
+  split; [unfold p_size, empty_pkt, MAX_MSG; cbn [p_body]; blen_norm; lia|].
+  intros h _. apply tbl_ok_nil.
+Qed.
+
+Lemma put_record_props p r now :
+  PINV p -> wf_orec r = true -> ttl_ok r now = true ->
+  exists p' ok, put_record p r now = Ok (p', ok) /\ PINV p'
+    /\ (ok = false -> p_body p' = p_body p)
+    /\ (ok = true ->
+        (exists bs, p_body p' = p_body p ++ bs) /\
+        forall h, blen h = 12 ->
+          ref_record (h ++ p_body p') (p_size p)
+          = Some (view_rr r (written_ttl r now), p_size p')).
+Proof.
+  intros [Hsz Ht] Hwf Hnow.
+  assert (Hpos : forall h, blen h = 12 -> blen (h ++ p_body p) = p_size p).
+  { intros h Hh. unfold p_size. apply blen_hb. exact Hh. }
+  destruct (write_record_correct (p_table p) (h0 ++ p_body p) r now (Ht h0 blen_h0)) as [w [Hw Hprops]];
+    [rewrite (Hpos h0 blen_h0); exact Hsz|exact Hwf|exact Hnow|].
+  rewrite (Hpos h0 blen_h0) in Hw.
+  unfold put_record. rewrite Hw. cbn [bind].
+  destruct w as [[bs t']|].
+  - exists (mkPkt (p_body p ++ bs) t'), true. split; [reflexivity|].
+    assert (Hall : forall h, blen h = 12 ->
+      tbl_ok t' ((h ++ p_body p) ++ bs) /\ p_size p + blen bs <= MAX_MSG
+      /\ ref_record ((h ++ p_body p) ++ bs) (p_size p)
+         = Some (view_rr r (written_ttl r now), p_size p + blen bs)).
+    { intros h Hh.
+      destruct (write_record_correct (p_table p) (h ++ p_body p) r now (Ht h Hh)) as [w' [Hw' Hp']];
+        [rewrite (Hpos h Hh); exact Hsz|exact Hwf|exact Hnow|].
+      rewrite (Hpos h Hh) in Hw', Hp'. rewrite Hw in Hw'. inversion Hw'; subst w'.
+      destruct Hp' as (H1 & H2 & _ & H4). auto. }
+    assert (Hsz' : p_size (mkPkt (p_body p ++ bs) t') = p_size p + blen bs).
+    { unfold p_size. cbn [p_body]. blen_norm. lia. }
+    split; [|split].
+    + split.
+      * rewrite Hsz'. apply (Hall h0 blen_h0).
+      * intros h Hh. cbn [p_body p_table]. rewrite app_assoc. apply (Hall h Hh).
+    + discriminate.
+    + intros _. split; [exists bs; reflexivity|].
+      intros h Hh. rewrite Hsz'. cbn [p_body]. rewrite app_assoc. apply (Hall h Hh).
+  - exists (mkPkt (p_body p) (rollback_table (p_table p) (p_size p))), false.
+    split; [reflexivity|]. split; [|split].
+    + split; [exact Hsz|]. intros h Hh. cbn [p_body p_table]. unfold rollback_table.
+      apply tbl_ok_filter. apply Ht. exact Hh.
+    + reflexivity.
+    + discriminate.
+Qed.
+
+Lemma put_record_total p r now :
+  wf_orec r = true -> ttl_ok r now = true -> exists x, put_record p r now = Ok x.
+Proof.
+  intros Hwf Hnow. unfold put_record.
+  destruct (write_record_total (p_table p) (p_size p) r now Hwf Hnow) as [w Hw].
+  rewrite Hw. cbn [bind]. destruct w as [[bs t]|]; eauto.
+Qed.
+
+Lemma wf_answer_inv r now : wf_answer (r, now) = true -> wf_orec r = true /\ ttl_ok r now = true.
+Proof. unfold wf_answer, ttl_ok. cbn [fst snd]. intros H. apply andb_true_iff in H. exact H. Qed.
+
+Lemma to_nat_succ n : N.to_nat (n + 1) = S (N.to_nat n).
+Proof. lia. Qed.
+
+Lemma put_answers_props : forall rs p cnt,
+  PINV p -> forallb wf_answer rs = true ->
+  exists p' cnt' l' bs,
+    put_answers p rs cnt = Ok (p', cnt') /\ PINV p' /\ p_body p' = p_body p ++ bs
+    /\ is_subseq ref_rr_beq l' (map view_answer rs) = true
+    /\ forall h off l, blen h = 12 ->
+         ref_records (N.to_nat cnt) (h ++ p_body p) off = Some (l, p_size p) ->
+         ref_records (N.to_nat cnt') (h ++ p_body p') off = Some (l ++ l', p_size p').
+Proof.
+  induction rs as [|[r now] rs IH]; intros p cnt Hp Hwf.
+  - exists p, cnt, [], []. split; [reflexivity|]. split; [exact Hp|].
+    split; [rewrite app_nil_r; reflexivity|]. split; [reflexivity|].
+    intros h off l _ H. rewrite app_nil_r. exact H.
+  - cbn [forallb] in Hwf. apply andb_true_iff in Hwf as [Hr Hrs].
+    apply wf_answer_inv in Hr as [Hr Hnow].
+    destruct (put_record_props p r now Hp Hr Hnow) as (p1 & ok & Hput & Hp1 & Hno & Hyes).
+    cbn [put_answers]. rewrite Hput. cbn [bind].
+    destruct (IH p1 (if ok then cnt + 1 else cnt) Hp1 Hrs)
+      as (p' & cnt' & l' & bs & Hrun & Hp' & Hbody & Hsub & Hparse).
+    rewrite Hrun. destruct ok.
+    + destruct (Hyes eq_refl) as [[bs1 Hb1] Hrec].
+      exists p', cnt', (view_answer (r, now) :: l'), (bs1 ++ bs).
+      split; [reflexivity|]. split; [exact Hp'|].
+      split; [rewrite Hbody, Hb1, app_assoc; reflexivity|].
+      split; [cbn [map]; apply is_subseq_cons_both; [apply ref_rr_beq_refl|exact Hsub]|].
+      intros h off l Hh Hl.
+      replace (l ++ view_answer (r, now) :: l') with ((l ++ [view_answer (r, now)]) ++ l')
+        by (rewrite <- app_assoc; reflexivity).
+      apply Hparse; [exact Hh|]. rewrite to_nat_succ.
+      eapply ref_records_snoc.
+      * rewrite Hb1, app_assoc. apply ref_records_stable. exact Hl.
+      * apply Hrec. exact Hh.
+    + specialize (Hno eq_refl).
+      exists p', cnt', l', bs.
+      split; [reflexivity|]. split; [exact Hp'|].
+      split; [rewrite Hbody, Hno; reflexivity|].
+      split; [cbn [map]; apply is_subseq_cons_r; exact Hsub|].
+      intros h off l Hh Hl. apply Hparse; [exact Hh|].
+      rewrite Hno. unfold p_size. rewrite Hno. exact Hl.
+Qed.
+
+Lemma put_auths_eq : forall rs p cnt,
+  put_auths p rs cnt = put_answers p (map (fun r => (r, 0)) rs) cnt.
+Proof.
+  induction rs as [|r rs IH]; intros p cnt; [reflexivity|].
+  cbn [put_auths put_answers map].
+  destruct (put_record p r 0) as [[p' ok]| | |]; cbn [bind]; [apply IH|reflexivity..].
+Qed.
+
+Lemma ttl_ok_0 r : ttl_ok r 0 = true.
+Proof. reflexivity. Qed.
+
+Lemma wf_other_answers rs :
+  forallb wf_orec rs = true -> forallb wf_answer (map (fun r => (r, 0)) rs) = true.
+Proof.
+  induction rs as [|r rs IH]; cbn [forallb map]; intros H; [reflexivity|].
+  apply andb_true_iff in H as [H1 H2]. rewrite (IH H2), andb_true_r.
+  unfold wf_answer. cbn [fst snd]. rewrite H1. reflexivity.
+Qed.
+
+Lemma view_other_answers rs :
+  map view_answer (map (fun r => (r, 0)) rs) = map view_other rs.
+Proof. rewrite map_map. apply map_ext. intros r. reflexivity. Qed.
+
+Lemma put_auths_props rs p cnt :
+  PINV p -> forallb wf_orec rs = true ->
+  exists p' cnt' l' bs,
+    put_auths p rs cnt = Ok (p', cnt') /\ PINV p' /\ p_body p' = p_body p ++ bs
+    /\ is_subseq ref_rr_beq l' (map view_other rs) = true
+    /\ forall h off l, blen h = 12 ->
+         ref_records (N.to_nat cnt) (h ++ p_body p) off = Some (l, p_size p) ->
+         ref_records (N.to_nat cnt') (h ++ p_body p') off = Some (l ++ l', p_size p').
+Proof.
+  intros Hp Hwf. rewrite put_auths_eq, <- view_other_answers.
+  apply put_answers_props; [exact Hp|apply wf_other_answers; exact Hwf].
+Qed.
+
+(* totality of the sections (no invariant needed) *)
+Lemma put_answers_total : forall rs p cnt,
+  forallb wf_answer rs = true -> exists x, put_answers p rs cnt = Ok x.
+Proof.
+  induction rs as [|[r now] rs IH]; intros p cnt Hwf; [cbn; eauto|].
+  cbn [forallb] in Hwf. apply andb_true_iff in Hwf as [Hr Hrs].
+  apply wf_answer_inv in Hr as [Hr Hnow].
+  destruct (put_record_total p r now Hr Hnow) as [[p1 ok] Hput].
+  cbn [put_answers]. rewrite Hput. cbn [bind]. apply IH. exact Hrs.
+Qed.
+
+Lemma put_auths_total rs p cnt :
+  forallb wf_orec rs = true -> exists x, put_auths p rs cnt = Ok x.
+Proof.
+  intros H. rewrite put_auths_eq. apply put_answers_total. apply wf_other_answers. exact H.
+Qed.
+
+Lemma put_addls_total resp id fl : forall rs done p q a ns ar,
+  forallb wf_orec rs = true -> exists x, put_addls resp id fl done p q a ns ar rs = Ok x.
+Proof.
+  induction rs as [|r rs IH]; intros done p q a ns ar Hwf; [cbn; eauto|].
+  cbn [forallb] in Hwf. apply andb_true_iff in Hwf as [Hr Hrs].
+  destruct (put_record_total p r 0 Hr (ttl_ok_0 r)) as [[p1 ok] Hput].
+  cbn [put_addls]. rewrite Hput. cbn [bind].
+  destruct ok; [apply IH; exact Hrs|].
+  destruct resp; [eauto|].
+  destruct (put_record_total empty_pkt r 0 Hr (ttl_ok_0 r)) as [[p2 ok2] Hput2].
+  rewrite Hput2. cbn [bind]. apply IH. exact Hrs.
+Qed.
+
+Lemma write_questions_total : forall qs p,
+  forallb (fun q => wf_name (fst q) && (snd q <? 65536)) qs = true ->
+  exists p', write_questions p qs = Ok p'.
+Proof.
+  induction qs as [|q qs IH]; intros p Hwf; [cbn; eauto|].
+  cbn [forallb] in Hwf. apply andb_true_iff in Hwf as [Hq Hqs].
+  apply andb_true_iff in Hq as [Hq _].
+  cbn [write_questions]. unfold write_question.
+  destruct (write_name_total (p_table p) (p_size p) (fst q) Hq) as [[nb t] Hw].
+  rewrite Hw. cbn [bind]. apply IH. exact Hqs.
+Qed.
+
+Lemma wf_out_inv m :
+  wf_out m = true ->
+  og_flags m < 65536 /\ og_id m < 65536
+  /\ forallb (fun q => wf_name (fst q) && (snd q <? 65536)) (og_questions m) = true
+  /\ forallb wf_answer (og_answers m) = true
+  /\ forallb wf_orec (og_authorities m) = true /\ forallb wf_orec (og_additionals m) = true.
+Proof.
+  unfold wf_out. intros H.
+  apply andb_true_iff in H as [H H6]. apply andb_true_iff in H as [H H5].
+  apply andb_true_iff in H as [H H4]. apply andb_true_iff in H as [H H3].
+  apply andb_true_iff in H as [H1 H2]. apply N.ltb_lt in H1, H2. repeat split; assumption.
+Qed.
+
+(* (iii) *)
+Theorem encode_total : forall m, wf_out m = true -> exists pkts, to_packets m = Ok pkts.
+Proof.
+  intros m Hwf. apply wf_out_inv in Hwf as (_ & _ & Hq & Ha & Hn & Hr).
+  unfold to_packets, to_packets_tables.
+  destruct (write_questions_total _ empty_pkt Hq) as [p0 H0]. rewrite H0. cbn [bind].
+  destruct (put_answers_total _ p0 0 Ha) as [[p1 a] H1]. rewrite H1. cbn [bind].
+  destruct (put_auths_total _ p1 0 Hn) as [[p2 ns] H2]. rewrite H2. cbn [bind].
+  destruct (put_addls_total (N.land (og_flags m) 32768 =? 32768)
+              (if og_multicast m then 0 else og_id m) (og_flags m) _ [] p2
+              (N.of_nat (length (og_questions m)) mod 65536) a ns 0 Hr)
+    as [[[done p3] [[[q' a'] ns'] ar']] H3].
+  rewrite H3. cbn [bind]. eauto.
+Qed.
+
+(* ---- the question section ---- *)
+
+Lemma write_question_body p q p1 :
+  write_question p q = Ok p1 -> exists bs, p_body p1 = p_body p ++ bs.
+Proof.
+  unfold write_question.
+  destruct (write_name (p_table p) (p_size p) (fst q)) as [[nb t]| | |]; cbn [bind]; try discriminate.
+  intros H. inversion H. cbn [p_body]. eauto.
+Qed.
+
+Lemma write_questions_mono : forall qs p p',
+  write_questions p qs = Ok p' -> p_size p <= p_size p'.
+Proof.
+  induction qs as [|q qs IH]; intros p p' H.
+  - cbn in H. inversion H. lia.
+  - cbn [write_questions] in H.
+    destruct (write_question p q) as [p1| | |] eqn:E; cbn [bind] in H; try discriminate.
+    apply IH in H. apply write_question_body in E as [bs E].
+    unfold p_size in *. rewrite E in H. blen_norm. lia.
+Qed.
+
+Definition TINV (p : pkt) : Prop := forall h, blen h = 12 -> tbl_ok (p_table p) (h ++ p_body p).
+
+Lemma write_question_props p q :
+  p_size p <= MAX_MSG -> TINV p -> wf_name (fst q) = true -> snd q < 65536 ->
+  exists p1 bs, write_question p q = Ok p1 /\ p_body p1 = p_body p ++ bs /\ TINV p1
+    /\ forall h, blen h = 12 ->
+         ref_question (h ++ p_body p1) (p_size p) = Some (view_q q, p_size p1).
+Proof.
+  unfold MAX_MSG. intros Hsz Ht Hwf Hty.
+  assert (Hpos : forall h, blen h = 12 -> blen (h ++ p_body p) = p_size p).
+  { intros h Hh. unfold p_size. apply blen_hb. exact Hh. }
+  destruct (write_name_correct (p_table p) (h0 ++ p_body p) (fst q) (Ht h0 blen_h0) Hwf)
+    as (nb & t & Hw & _ & _ & _ & _); [rewrite (Hpos h0 blen_h0); lia|].
+  rewrite (Hpos h0 blen_h0) in Hw.
+  set (tail := u16_bytes (snd q) ++ u16_bytes 1).
+  exists (mkPkt (p_body p ++ nb ++ tail) t), (nb ++ tail).
+  unfold write_question. rewrite Hw. cbn [bind].
+  split; [reflexivity|]. split; [reflexivity|].
+  assert (Hall : forall h, blen h = 12 ->
+    tbl_ok t ((h ++ p_body p) ++ nb) /\
+    forall x, ref_name ((h ++ p_body p) ++ nb ++ x) (p_size p)
+              = Some (name_labels (fst q), p_size p + blen nb)).
+  { intros h Hh.
+    destruct (write_name_correct (p_table p) (h ++ p_body p) (fst q) (Ht h Hh) Hwf)
+      as (nb' & t' & Hw' & _ & _ & Ht' & Hr'); [rewrite (Hpos h Hh); lia|].
+    rewrite (Hpos h Hh) in Hw', Hr'. rewrite Hw in Hw'. apply Ok_pair_inj in Hw' as [E1 E2].
+    subst nb' t'. split; assumption. }
+  split.
+  - intros h Hh. cbn [p_body p_table].
+    replace (h ++ p_body p ++ nb ++ tail) with (((h ++ p_body p) ++ nb) ++ tail)
+      by (rewrite <- !app_assoc; reflexivity).
+    apply tbl_ok_app. apply (Hall h Hh).
+  - intros h Hh. cbn [p_body]. destruct (Hall h Hh) as [_ Hr].
+    unfold ref_question.
+    replace (h ++ p_body p ++ nb ++ tail) with ((h ++ p_body p) ++ nb ++ tail)
+      by (rewrite <- !app_assoc; reflexivity).
+    rewrite Hr.
+    set (d := (h ++ p_body p) ++ nb).
+    assert (Hd : blen d = p_size p + blen nb) by (subst d; rewrite blen_app, (Hpos h Hh); reflexivity).
+    replace ((h ++ p_body p) ++ nb ++ tail) with (d ++ tail)
+      by (subst d; rewrite <- !app_assoc; reflexivity).
+    rewrite <- Hd.
+    assert (H1 : ref_u16 (d ++ tail) (blen d) = Some (snd q)).
+    { subst tail. apply ref_u16_mid. exact Hty. }
+    assert (H2 : ref_u16 (d ++ tail) (blen d + 2) = Some 1).
+    { subst tail. replace (blen d + 2) with (blen (d ++ u16_bytes (snd q))) by (blen_norm; lia).
+      rewrite app_assoc. rewrite <- (app_nil_r (u16_bytes 1)). apply ref_u16_mid. lia. }
+    rewrite H1, H2. unfold view_q. f_equal. f_equal.
+    unfold p_size. cbn [p_body]. rewrite Hd. subst tail. unfold p_size. blen_norm. lia.
+Qed.
+
+Lemma write_questions_props : forall qs p p',
+  write_questions p qs = Ok p' -> p_size p' <= MAX_MSG -> TINV p ->
+  forallb (fun q => wf_name (fst q) && (snd q <? 65536)) qs = true ->
+  TINV p' /\ exists bs, p_body p' = p_body p ++ bs /\
+    forall h l n, blen h = 12 ->
+      ref_questions n (h ++ p_body p) 12 = Some (l, p_size p) ->
+      ref_questions (n + length qs) (h ++ p_body p') 12 = Some (l ++ map view_q qs, p_size p').
+Proof.
+  induction qs as [|q qs IH]; intros p p' Hrun Hsz Ht Hwf.
+  - cbn in Hrun. inversion Hrun; subst p'. split; [exact Ht|].
+    exists []. split; [rewrite app_nil_r; reflexivity|].
+    intros h l n _ H. rewrite Nat.add_0_r, app_nil_r. exact H.
+  - cbn [forallb] in Hwf. apply andb_true_iff in Hwf as [Hq Hqs].
+    apply andb_true_iff in Hq as [Hq Hty]. apply N.ltb_lt in Hty.
+    cbn [write_questions] in Hrun.
+    destruct (write_question p q) as [p1| | |] eqn:E; cbn [bind] in Hrun; try discriminate.
+    pose proof (write_questions_mono _ _ _ Hrun) as Hm1.
+    pose proof (write_question_body _ _ _ E) as [bs0 Hb0].
+    assert (Hp : p_size p <= MAX_MSG).
+    { unfold p_size in *. rewrite Hb0 in Hm1. blen_norm. lia. }
+    destruct (write_question_props p q Hp Ht Hq Hty) as (p1' & bs1 & E' & Hb1 & Ht1 & Hrq).
+    rewrite E in E'. inversion E'; subst p1'.
+    destruct (IH p1 p' Hrun Hsz Ht1 Hqs) as [Ht' (bs & Hb & Hparse)].
+    split; [exact Ht'|].
+    exists (bs1 ++ bs). split; [rewrite Hb, Hb1, app_assoc; reflexivity|].
+    intros h l n Hh Hl.
+    replace (n + length (q :: qs))%nat with (S n + length qs)%nat by (cbn [length]; lia).
+    replace (l ++ map view_q (q :: qs)) with ((l ++ [view_q q]) ++ map view_q qs)
+      by (rewrite <- app_assoc; reflexivity).
+    apply Hparse; [exact Hh|].
+    eapply ref_questions_snoc.
+    + rewrite Hb1, app_assoc. apply ref_questions_stable. exact Hl.
+    + apply Hrq. exact Hh.
+Qed.
+
+(* ------------------------------------------------------------------------------------ *)
+(* 6. Finishing a packet                                                                 *)
+(* ------------------------------------------------------------------------------------ *)
+
+Definition OPEN (p : pkt) (q a ns ar : N) (Q : list ref_q) (A NS AR : list ref_rr) : Prop :=
+  PINV p /\ forall h, blen h = 12 -> exists o1 o2 o3,
+    ref_questions (N.to_nat q) (h ++ p_body p) 12 = Some (Q, o1)
+    /\ ref_records (N.to_nat a) (h ++ p_body p) o1 = Some (A, o2)
+    /\ ref_records (N.to_nat ns) (h ++ p_body p) o2 = Some (NS, o3)
+    /\ ref_records (N.to_nat ar) (h ++ p_body p) o3 = Some (AR, p_size p).
+
+Lemma blen_header id fl q a ns ar : blen (header_bytes id fl q a ns ar) = 12.
+Proof. reflexivity. Qed.
+
+Lemma header_read id fl q a ns ar body :
+  id < 65536 -> fl < 65536 -> q < 65536 -> a < 65536 -> ns < 65536 -> ar < 65536 ->
+  let d := header_bytes id fl q a ns ar ++ body in
+  ref_u16 d 0 = Some id /\ ref_u16 d 2 = Some fl /\ ref_u16 d 4 = Some q
+  /\ ref_u16 d 6 = Some a /\ ref_u16 d 8 = Some ns /\ ref_u16 d 10 = Some ar.
+Proof.
+  intros H1 H2 H3 H4 H5 H6 d. subst d. unfold header_bytes.
+  repeat split.
+  - exact (ref_u16_mid [] id
+      (u16_bytes fl ++ u16_bytes q ++ u16_bytes a ++ u16_bytes ns ++ u16_bytes ar ++ body) H1).
+  - exact (ref_u16_mid (u16_bytes id) fl
+      (u16_bytes q ++ u16_bytes a ++ u16_bytes ns ++ u16_bytes ar ++ body) H2).
+  - exact (ref_u16_mid (u16_bytes id ++ u16_bytes fl) q
+      (u16_bytes a ++ u16_bytes ns ++ u16_bytes ar ++ body) H3).
+  - exact (ref_u16_mid (u16_bytes id ++ u16_bytes fl ++ u16_bytes q) a
+      (u16_bytes ns ++ u16_bytes ar ++ body) H4).
+  - exact (ref_u16_mid (u16_bytes id ++ u16_bytes fl ++ u16_bytes q ++ u16_bytes a) ns
+      (u16_bytes ar ++ body) H5).
+  - exact (ref_u16_mid (u16_bytes id ++ u16_bytes fl ++ u16_bytes q ++ u16_bytes a ++ u16_bytes ns) ar
+      body H6).
+Qed.
+
+Lemma finish_parse p id fl q a ns ar Q A NS AR :
+  OPEN p q a ns ar Q A NS AR -> id < 65536 -> fl < 65536 ->
+  ref_parse (finish p id fl q a ns ar) = Some (mkRefMsg id fl Q A NS AR)
+  /\ blen (finish p id fl q a ns ar) <= MAX_MSG.
+Proof.
+  intros [[Hsz Ht] Hopen] Hid Hfl.
+  set (h := header_bytes id fl q a ns ar).
+  assert (Hh : blen h = 12) by reflexivity.
+  destruct (Hopen h Hh) as (o1 & o2 & o3 & HQ & HA & HNS & HAR).
+  pose proof (ref_questions_next _ _ _ _ _ HQ) as [B1 _].
+  pose proof (ref_records_next _ _ _ _ _ HA) as [B2 _].
+  pose proof (ref_records_next _ _ _ _ _ HNS) as [B3 _].
+  pose proof (ref_records_next _ _ _ _ _ HAR) as [B4 _].
+  rewrite !N2Nat.id in *. unfold MAX_MSG in *.
+  destruct (header_read id fl q a ns ar (p_body p)) as (R1 & R2 & R3 & R4 & R5 & R6);
+    try lia.
+  unfold finish. fold h in R1, R2, R3, R4, R5, R6 |- *.
+  split.
+  - unfold ref_parse. rewrite R1, R2, R3, R4, R5, R6, HQ, HA, HNS, HAR.
+    replace (p_size p =? N.of_nat (length (h ++ p_body p))) with true; [reflexivity|].
+    symmetry. apply N.eqb_eq. unfold p_size. fold (blen (h ++ p_body p)). blen_norm. lia.
+  - unfold p_size in Hsz. blen_norm. lia.
+Qed.
